@@ -159,6 +159,8 @@ func (p *PackageProgress) stageStreamData() error {
 				keys = append(keys, key)
 			}
 			sort.Ints(keys)
+			// 重传的分片会让文件再次完成 不能接在上一次组装的内容后面
+			pack.StreamBody = nil
 			for _, key := range keys {
 				pack.StreamBody = append(pack.StreamBody, pack.OffsetDataRecord[key]...)
 			}
